@@ -6,10 +6,12 @@ from fractions import Fraction
 
 from harness.core import tb
 
-PROOF_MODULE = "OdeVerif.Proofs.C15"
+PROOF_MODULE = ["OdeVerif.Proofs.C15", "OdeVerif.Proofs.RefineSpikes"]
+GENERATED = ['PySpikes', 'Constants']
 THEOREMS = ["OdeVerif.C15.regular_exact", "OdeVerif.C15.regular_spec", "OdeVerif.C15.regular_fuel", "OdeVerif.C15.poisson_spec",
             "OdeVerif.C15.list_spec", "OdeVerif.C15.list_spec_nil", "OdeVerif.C15.list_spec_single",
-            "OdeVerif.C15.targets_rewritten", "OdeVerif.C15.fromJson_key_train", "OdeVerif.C15.fromJson_keys_nodup"]
+            "OdeVerif.C15.targets_rewritten", "OdeVerif.C15.fromJson_key_train", "OdeVerif.C15.fromJson_keys_nodup",
+            "OdeVerif.Refine.regularSpikes_refines", "OdeVerif.Refine.poissonSpikes_refines"]
 LEVEL = "proof"
 SLACK = 1e-9
 
@@ -168,6 +170,13 @@ def oracle_regular(T, rate, out):
         if abs(Fraction(x) - k / fr) > Fraction(1, 10 ** 9) * k / fr:
             bad.append("spike %d is %r, not %d/rate" % (k, x, k))
             break
+    # where double arithmetic is exact (rate a power of two, T a small dyadic rational) there is no rounding to
+    # excuse anything: the train must be exactly the multiples of 1/rate in (0, T], the one at T included
+    m, e = math.frexp(rate)
+    if rate > 0 and m == 0.5 and fT.denominator & (fT.denominator - 1) == 0 and fT * fr <= 4096 and fT.denominator <= 2 ** 20:
+        want = [float(k / fr) for k in range(1, n_exact + 1)]
+        if out != want:
+            bad.append("exact case: delivered %r..., the multiples of 1/rate in (0, T] are %r..." % (out[-3:], want[-3:]))
     return bad
 
 
